@@ -42,6 +42,9 @@ def main():
     seeds = sys.argv[1:] or sorted(s for s in os.listdir(SEEDED) if os.path.isdir(os.path.join(SEEDED, s)))
     head = subprocess.run(['git', '-C', '/repo', 'rev-parse', '--short', 'HEAD'], capture_output=True, text=True).stdout.strip()
     for seed in seeds:
+        if json.load(open(os.path.join(SEEDED, seed, 'meta.json'))).get('retired'):
+            print(seed, 'retired', flush=True)
+            continue
         meta, out = run(seed)
         meta['detected_by'] = sorted(c for c, o in out.items() if isinstance(o, dict) and o.get('rc') == 1)
         meta['last_matrix'] = {'repo_head': head, 'tier': 'quick', 'seed': os.environ.get('VERIF_SEED', '1'), 'results': out}
@@ -50,6 +53,9 @@ def main():
     rows = []
     for seed in sorted(s for s in os.listdir(SEEDED) if os.path.isdir(os.path.join(SEEDED, s))):
         m = json.load(open(os.path.join(SEEDED, seed, 'meta.json')))
+        if m.get('retired'):
+            rows.append(f"| {seed} | {m['property']} | {m.get('needs_to_manifest', '')[:160]} | retired: {m['retired'][:200]} |")
+            continue
         res = m.get('last_matrix', {}).get('results', {})
         cells = '; '.join(f"{c}: {'CAUGHT' if o.get('rc') == 1 else ('missed' if o.get('rc') == 0 else 'rc ' + str(o.get('rc')))} ({o.get('violations_raw', 0)} raw; {', '.join(k.split('/', 1)[-1] for k in o.get('keys', [])[:2])})"
                           for c, o in res.items() if isinstance(o, dict) and 'rc' in o) or str(res)
